@@ -7,7 +7,7 @@
 
     searchHits        search/tantivy.rs try_tantivy_search, search/fallback.rs search_with_lex_fallback,
                       search_with_filters_only: a hit whose id is not in `toc.frames` is skipped; with
-                      `statusTest` (the code after /verif/fixes/C10.diff) a hit whose frame is not Active
+                      `statusTest` (the code since repo commit f3f305c = /verif/fixes/C10.diff) a hit whose frame is not Active
                       is skipped too.  (The later culls — query evaluation, snippet slices, top_k, cursor —
                       only REMOVE hits; the hit list the caller sees is a sub-list of this one.)
     vecHits           search/api.rs vec_search_with_embedding_acl (and search_adaptive, ask's vector
